@@ -39,6 +39,7 @@ EVENT = {"type": "E", "p0": 1, "p1": 2, "p2": 3}
 EXTRA_KEYS = {"type", "uid", "event_created_at", "source_uid", "action_uid",
               "action_info_modality", "action_info_modality_policy"}
 PRIORITIES = [None, None, None, "1.0", "0.9", "0.5", "0.81", "0.729"]
+TRIG_PARAMS = [("a", 7), ("b", 8)]
 INJECT_POOL = [1.0, 0.9, 0.81, 0.9 * 0.9 * 0.9, 0.729, 0.5, 0.45, 0.9 * 0.5]
 
 
@@ -80,11 +81,21 @@ def scenario_src(sc):
         lines.append("flow " + f["name"])
         if f["priority"] is not None:
             lines.append("  priority " + f["priority"])
-        lines.append("  match E(%s)" % ", ".join("p%d=%d" % (i, i + 1) for i in range(f["mention"])))
+        if f.get("ff") is not None:
+            # reacts to the internal FlowFinished event of the trigger flow `t`, mentioning ff of its parameters
+            names = ['flow_id="t"'] + ["%s=%d" % (n, v) for n, v in TRIG_PARAMS[:sc["trigger"]["q"]]]
+            lines.append("  match FlowFinished(%s)" % ", ".join(names[:f["ff"]]))
+        else:
+            lines.append("  match E(%s)" % ", ".join("p%d=%d" % (i, i + 1) for i in range(f["mention"])))
         if f["via"] > 0:
             lines.append("  await %s_h%d" % (f["name"], f["via"]))
         else:
             lines += action_stmt(f)
+        lines.append("")
+    trig = sc.get("trigger")
+    if trig:
+        lines.append("flow t" + "".join(" $" + n for n, _ in TRIG_PARAMS[:trig["q"]]))
+        lines.append("  match E(%s)" % ", ".join("p%d=%d" % (i, i + 1) for i in range(trig["mention"])))
         lines.append("")
     for b in sc["bystanders"]:
         if b["loop"]:
@@ -95,7 +106,10 @@ def scenario_src(sc):
         lines.append("")
     lines.append("flow main")
     for n in sc["order"]:
-        lines.append("  start " + n)
+        if n == "t":
+            lines.append("  start t" + "".join(" %d" % v for _, v in TRIG_PARAMS[:trig["q"]]))
+        else:
+            lines.append("  start " + n)
     lines.append("  match Never()")
     return "\n".join(lines) + "\n"
 
@@ -139,6 +153,58 @@ def mk_scenario(sid, specs, loops, acts, prios=None, vias=None, kinds=None, alts
     if rng is not None:
         rng.shuffle(order)
     return {"id": sid, "flows": flows, "bystanders": bys, "order": order, "inject": inject}
+
+
+def mk_chain_scenario(sid, trig_q, trig_mention, comps, loops, acts, rng=None, bystanders=0):
+    """Competitors of which some react to the external event directly (score chain [s]) and some
+    through FlowFinished of the trigger flow t (chain [score of t's match, own fuzzy match]).
+    comps: list of (ff or None, mention, priority)."""
+    sc = mk_scenario(sid, [c[1] for c in comps], loops, acts, prios=[c[2] for c in comps],
+                     bystanders=bystanders)
+    for f, c in zip(sc["flows"], comps):
+        f["ff"] = c[0]
+    sc["trigger"] = {"q": trig_q, "mention": trig_mention}
+    sc["order"] = ["t"] + sc["order"]
+    if rng is not None:
+        rng.shuffle(sc["order"])
+    return sc
+
+
+def gen_chain_scenarios(n_random, rng, sid0):
+    out = []
+
+    def add(**kw):
+        out.append(mk_chain_scenario(sid0 + len(out), **kw))
+
+    A = ACTIONS
+    # minimal shapes: equal first score, chains of different length with a fuzzy later link;
+    # a priority that inverts plain specificity on an internal event
+    add(trig_q=0, trig_mention=2, comps=[(None, 2, None), (1, 0, None)], loops=[None, None], acts=[A[0], A[1]])
+    add(trig_q=0, trig_mention=2, comps=[(1, 0, None), (None, 2, None)], loops=[None, None], acts=[A[0], A[1]])
+    add(trig_q=0, trig_mention=0, comps=[(1, 0, "0.5"), (0, 0, None)], loops=[None, None], acts=[A[0], A[1]])
+    add(trig_q=1, trig_mention=3, comps=[(2, 0, "0.5"), (0, 0, None), (0, 0, "0.9")], loops=[None] * 3,
+        acts=[A[0], A[1], A[2]])
+    for _ in range(n_random):
+        q = rng.choice([0, 0, 1, 2])
+        mt = rng.randint(0, NPARAMS)
+        n = rng.choice([2, 2, 3, 3, 4])
+        comps = []
+        for i in range(n):
+            prio = rng.choice([None, None, "0.5", "0.9", "0.8", "1.0"])
+            if rng.random() < 0.6:
+                comps.append((rng.randint(0, 1 + q), 0, prio))
+            else:
+                # direct competitor, mostly with the same first score as the chains through t
+                m = mt if rng.random() < 0.7 else rng.randint(0, NPARAMS)
+                comps.append((None, m, prio if rng.random() < 0.3 else None))
+        if all(c[0] is None for c in comps):
+            comps[0] = (rng.randint(0, 1 + q), 0, comps[0][2])
+        part = rng.choice(list(set_partitions(n))) if rng.random() < 0.25 else [0] * n
+        pool = rng.sample(ACTIONS[:5], rng.choice([2, 3, 4]))
+        acts = [pool[i % len(pool)] for i in range(n)] if rng.random() < 0.6 else [rng.choice(pool) for _ in range(n)]
+        add(trig_q=q, trig_mention=mt, comps=comps, loops=loops_of(part), acts=acts, rng=rng,
+            bystanders=rng.choice([0, 0, 1]))
+    return out
 
 
 def set_partitions(n):
@@ -188,7 +254,8 @@ def gen_scenarios(tier, rng):
                     acts = [ACTIONS[(k + i * (1 + k % 2)) % 2] for i in range(n)]
                     add(specs=list(specs), loops=loops_of(part), acts=acts, rng=rng,
                         bystanders=(k % 3 == 0) * 2)
-    n_random = 1900 if tier == "quick" else 6000
+    out += gen_chain_scenarios(400 if tier == "quick" else 3000, rng, 10 ** 6)
+    n_random = 1500 if tier == "quick" else 6000
     for _ in range(n_random):
         n = rng.choice([2, 2, 3, 3, 3, 4, 4, 5])
         part = rng.choice(list(set_partitions(n))) if rng.random() < 0.6 else [0] * n
@@ -541,8 +608,17 @@ def py_same_action(a, b):
     return a["cls"] == b["cls"] and dict(map(tuple, a["args"])) == dict(map(tuple, b["args"]))
 
 
-def ideal_vector(f, factor):
+def ideal_vector(f, factor, sc=None):
+    """The documented score chain: per match priority * factor^(event parameters not mentioned);
+    a StartFlow match of a helper flow is perfect (1.0)."""
     p = Fraction(f["priority"]) if f["priority"] is not None else Fraction(1)
+    if f.get("ff") is not None:
+        trig = sc["trigger"]
+        # FlowFinished carries flow_id, flow_instance_uid, source_flow_instance_uid and every flow
+        # parameter twice (by name and by position)
+        n_ff = 3 + 2 * trig["q"]
+        return ([factor ** (NPARAMS - trig["mention"]), p * factor ** (n_ff - f["ff"])]
+                + [Fraction(1)] * f["via"])
     return [p * factor ** (NPARAMS - f["mention"])] + [Fraction(1)] * f["via"]
 
 
@@ -815,7 +891,7 @@ def run(tier, seed, replay=None):
                 continue  # injected score lists: function level only
             n_e2e += 1
             nat = natural_vectors(sc, run_)
-            ideal = {f["name"]: ideal_vector(f, factor) for f in sc["flows"]}
+            ideal = {f["name"]: ideal_vector(f, factor, sc) for f in sc["flows"]}
             use = {}
             case_ok = True
             for f in sc["flows"]:
@@ -831,22 +907,29 @@ def run(tier, seed, replay=None):
                     case_ok = False
                 use[f["name"]] = [Fraction(r) for r in real]
             # double rounding: float order == exact order, component-wise over the case
-            if case_ok:
-                rounding_total += 1
+            inverted = False
+            if True:
+                rounding_total += case_ok
                 pairs_ok = True
-                names = [f["name"] for f in sc["flows"]]
+                names = [f["name"] for f in sc["flows"]] if case_ok else []
                 for x, y in itertools.combinations(names, 2):
                     for pos in range(min(len(nat[x]), len(nat[y]))):
                         fr = (nat[x][pos] > nat[y][pos]) - (nat[x][pos] < nat[y][pos])
                         ir = (ideal[x][pos] > ideal[y][pos]) - (ideal[x][pos] < ideal[y][pos])
+                        if not case_ok:
+                            continue
                         if fr != ir:
                             pairs_ok = False
+                            if ir != 0:
+                                inverted = True   # rounding merged or inverted two different exact scores
                             if len(rounding_bad_examples) < 3:
                                 rounding_bad_examples.append({"scenario": sid, "flows": [x, y], "float": [nat[x][pos], nat[y][pos]],
                                                               "exact": [str(ideal[x][pos]), str(ideal[y][pos])]})
-                rounding_ok += pairs_ok
-                if pairs_ok:
-                    use = ideal  # the oracle then speaks about unmentioned parameters x priority
+                rounding_ok += pairs_ok and case_ok
+                if not inverted:
+                    # the oracle speaks about the documented chain: unmentioned parameters x priority
+                    # (rounding that merely splits an exact tie keeps the winner among the most specific)
+                    use = ideal
             for sig, what in oracle(sc, run_, factor, use):
                 viol.append((sc, run_, sig, what))
             winners_seen.add(json.dumps(sorted((e["type"], json.dumps(e["args"], sort_keys=True)) for e in run_["out"])))
